@@ -1,6 +1,7 @@
 package main
 
 import (
+	"fmt"
 	"go/types"
 
 	"golang.org/x/tools/go/ssa"
@@ -86,9 +87,40 @@ func (in *Interp) initStubs2() {
 // summarize evaluates a side-effect-free harness function (name prefix zzPure) on symbolic arguments by exploring
 // all of its internal paths and merging the results into one ite value, so that the caller's path does not fork.
 func (in *Interp) summarize(th *Thread, fv FuncV, args []Value) Value {
+	// with scalar arguments only, the summary is computed under an empty path condition and cached per worker
+	key := fv.fn.String()
+	scalar := len(fv.bind) == 0
+	for _, a := range args {
+		t, ok := a.(*Term)
+		if !ok {
+			scalar = false
+			break
+		}
+		key += fmt.Sprintf(",%d", t.id)
+	}
+	if scalar {
+		if v, ok := in.pureCache[key]; ok {
+			return v
+		}
+		outerPC, outerList, outerLits := in.pc, in.pcList, in.litLog
+		outerSet, outerEq := in.pcSet, in.eqConst
+		in.pc, in.pcList, in.litLog, in.pcSet, in.eqConst = in.tb.T, nil, nil, map[*Term]bool{}, map[*Term]*Term{}
+		defer func() {
+			in.pc, in.pcList, in.litLog, in.pcSet, in.eqConst = outerPC, outerList, outerLits, outerSet, outerEq
+		}()
+	}
+	v := in.summarize1(th, fv, args)
+	if scalar {
+		in.pureCache[key] = v
+	}
+	return v
+}
+
+func (in *Interp) summarize1(th *Thread, fv FuncV, args []Value) Value {
 	savedPC, savedList := in.pc, len(in.pcList)
 	savedDec, savedPrefix := in.dec, in.prefix
 	savedSteps := in.loopBoundOverride
+	savedLits := len(in.litLog)
 	type res struct {
 		cond *Term
 		v    Value
@@ -102,6 +134,7 @@ func (in *Interp) summarize(th *Thread, fv FuncV, args []Value) Value {
 		}
 		in.pc = savedPC
 		in.pcList = in.pcList[:savedList]
+		in.restoreLits(savedLits)
 		in.dec = nil
 		in.prefix = local
 		var v Value
@@ -143,6 +176,7 @@ func (in *Interp) summarize(th *Thread, fv FuncV, args []Value) Value {
 	}
 	in.pc = savedPC
 	in.pcList = in.pcList[:savedList]
+	in.restoreLits(savedLits)
 	in.dec, in.prefix = savedDec, savedPrefix
 	in.loopBoundOverride = savedSteps
 	if len(results) == 0 {
